@@ -313,6 +313,7 @@ def strip_attr_ns(t):
     return ["t", t[1], t[2], sorted([a[1], a[2]] for a in t[3]), [strip_attr_ns(k) for k in t[4]]]
 
 
+CODEC_LABEL = {"utf-8": "utf-8", "utf-16": "utf-16", "iso8859-1": "latin-1", "ascii": "ascii"}
 DECL = re.compile(r'^<\?xml version="1\.0" encoding="([^"]*)"\?>')
 
 
@@ -427,7 +428,7 @@ def judge(run: Run, stream, case, res, models):
     # model
     if models is None:
         return
-    mdoc, mdrop = models
+    mdoc, mdrop = models[:2]
     for mm in models:
         if "driver_error" in mm:
             raise common.ToolFailure(str(mm))
@@ -436,6 +437,13 @@ def judge(run: Run, stream, case, res, models):
         exp_bytes = expect_text.replace("\n", nl_effective(case["newline"])).encode(enc)
         if exp_bytes != res["bytes"]:
             run.mismatch(stream, case, repr(res["bytes"][:400]), repr(exp_bytes[:400]), "written bytes differ from the model's text, newline-translated and encoded")
+        if len(models) == 4:
+            menc, mdec = models[2:]
+            run.count("codec-model", "encode+decode")
+            if menc.get("bytes") != list(res["bytes"]):
+                run.mismatch(stream, case, repr(res["bytes"][:200]), str(menc)[:400], "written bytes differ from the Lean codec model's encoding of the model's text")
+            if "\r" not in expect_text and mdec.get("eol") != expect_text:
+                run.mismatch(stream, case, expect_text[:300], str(mdec)[:300], "the Lean codec model does not read the written bytes back into the model's text")
     else:
         nl = case["newline"]
         exp = expect_text if nl in (None, "", "\n") else expect_text.replace("\n", nl)
@@ -480,6 +488,18 @@ def run_cases(run: Run, cases, stream, lean_ok=True):
         reqs = [r for c, res in rows for r in lean_requests(c, res)]
         out = run_driver(reqs)
         models = [(out[2 * i], out[2 * i + 1]) for i in range(len(rows))]
+        # byte level: the codec / newline model (Model/Codec.lean, theorems in Props/C12Codec.lean) writes the model's text
+        # and reads the real bytes
+        creqs, idx = [], []
+        for i, (c, res) in enumerate(rows):
+            if "bytes" in res and "text" in models[i][0]:
+                label = CODEC_LABEL[codecs.lookup(c["encoding"]).name]
+                creqs.append({"cmd": "encode", "codec": label, "newline": c["newline"], "linesep": os.linesep, "text": models[i][0]["text"]})
+                creqs.append({"cmd": "decode", "codec": label, "bytes": list(res["bytes"])})
+                idx.append(i)
+        cout = run_driver(creqs) if creqs else []
+        for k, i in enumerate(idx):
+            models[i] = models[i] + (cout[2 * k], cout[2 * k + 1])
     else:
         models = [None] * len(rows)
     for (c, res), m in zip(rows, models):
